@@ -193,8 +193,15 @@ def run(prop, tier, seed, replay=None):
                     rp = vlib.save_replay(prop, "hang-%s-%s" % (h["seed"], h["lookup"]), {"hang.json": h},
                                           dict(property=prop, seed=h["seed"], lookup=h["lookup"], what=h["what"]))
                     v.violation("hang", "lookup never made the progress it owes (reproduced 3x): %s; snapshot %s" % (h["what"], h["snap"]), rp)
+                elif h.get("window_ms", 0) >= 10000 and h.get("ticks", 0) * 20 >= h["window_ms"]:
+                    # not reproduced (the schedule of a concurrently driven lookup is not replayable), but the state shows an
+                    # obligation that stayed unmet for the whole wait while this process demonstrably kept being scheduled
+                    rp = vlib.save_replay(prop, "hang-%s-%s" % (h["seed"], h["lookup"]), {"hang.json": h},
+                                          dict(property=prop, seed=h["seed"], lookup=h["lookup"], what=h["what"]))
+                    v.violation("hang", "lookup never made the progress it owes: %s; snapshot %s; the driver process was scheduled %d times in the "
+                                "%d ms it waited (no starvation)" % (h["what"], h["snap"], h["ticks"], h["window_ms"]), rp)
                 else:
-                    v.inconclusive.append("a hang did not reproduce: %s" % h)
+                    v.inconclusive.append("a hang did not reproduce and starvation cannot be excluded: %s" % h)
     cov.update(evaluations=lookups, events_validated=events, deviations_without_property_violation=deviations, hangs=hangs,
                rule="seeded random response graphs (3-14 addresses incl. IPv6 and shared IPs, liars, silent and filtered nodes, duplicate IDs, "
                     "one address under many IDs, honest networks), K in {1,2,3,8}, Alpha 1..3, gated DoQuery: the driver picks the completion "
